@@ -15,7 +15,7 @@ while read -r PATCH NAME CHECKS; do
   git apply $PATCH || { echo "RESULT $NAME PATCH-DOES-NOT-APPLY"; continue; }
   res=""
   for p in $CHECKS; do
-    out=$(unshare -m bash -c "mount --bind $L/repo /repo && mount --bind $L/verif /verif && cd /verif && bin/check $p 2>&1 | tail -3")
+    out=$(unshare -m bash -c "mount --bind $L/repo /repo && mount --bind $L/verif /verif && cd /verif && bin/check $p 2>&1 | grep -E '^(VIOLATION|C[0-9][0-9]:)' | tail -3")
     v=$(echo "$out" | grep -c "^VIOLATION"); ok=$(echo "$out" | tail -1 | grep -c " OK$")
     res="$res $p:$([ $v = 0 ] && [ $ok = 1 ] && echo ok || echo ALARM)"
     [ $v != 0 ] || [ $ok != 1 ] && echo "$out" | cut -c1-600 > /tmp/refac_res/${NAME}_$p.txt
